@@ -65,7 +65,7 @@ type h8State struct {
 }
 
 var h8Inputs = map[string][]string{
-	"valid":   {"SELECT a, b FROM t WHERE a = 1", "INSERT INTO t (a) VALUES (1)", "SELECT a -- c1\nFROM t /* c2 */ WHERE b = 2", "WITH c AS (SELECT 1) SELECT * FROM c", "SELECT\t1,\t2\t/* tabs */\tFROM\tt", "\t\t\tSELECT a\n\t\t\tFROM t"},
+	"valid":   {"SELECT a, b FROM t WHERE a = 1", "INSERT INTO t (a) VALUES (1)", "SELECT a -- c1\nFROM t /* c2 */ WHERE b = 2", "WITH c AS (SELECT 1) SELECT * FROM c", "SELECT\t1,\t2\t/* tabs */\tFROM\tt", "\t\t\tSELECT a\n\t\t\tFROM t", "SELECT 1", "\t\tSELECT 1"},
 	"invalid": {"SELECT - FROM t", "INSERT INTO t VALUES (1, -)", "SELECT -(a + ) FROM t", "SELECT +(1", "SELECT a,\n  b\nFROM t\nWHERE ]", "SELECT FROM", "INSERT INTO t VALUES (", "SELECT a FROM t WHERE a = 'unterminated", "SELECT 'bad \\q escape'", "SELECT a FROM t;;\n\nSELECT ] x"},
 	"deep": {"SELECT " + strings.Repeat("(", 150) + "1" + strings.Repeat(")", 150), "SELECT " + strings.Repeat("f(", 120) + "1" + strings.Repeat(")", 120),
 		"SELECT " + strings.Repeat("- ", 150) + "1", "SELECT " + strings.Repeat("+ ", 130) + "a FROM t", "SELECT " + strings.Repeat("NOT ", 140) + "a", "SELECT " + strings.Repeat("CASE WHEN a THEN ", 110) + "1" + strings.Repeat(" END", 110),
@@ -191,6 +191,11 @@ var h8Probes = []h8Probe{
 	{"empty-input-ctx", "", "tokens-ctx", true},
 	{"ctx-indented", "     SELECT a FROM t WHERE 'x", "tokens-ctx", true},
 	{"ctx-tabs", "\tSELECT\ta,\n\t\tb FROM t", "tokens-ctx", true},
+	{"ctx-indented-deep", strings.Repeat(" ", 20) + "SELECT a FROM t WHERE 'x", "tokens-ctx", true},
+	{"indented-deep", strings.Repeat(" ", 22) + "SELECT a FROM t WHERE ]", "tokens", true},
+	{"ctx-blanks-only", "      ", "tokens-ctx", true},
+	{"blanks-only", "       ", "tokens", true},
+	{"ctx-comment-after-blanks", strings.Repeat(" ", 18) + "/* c */ SELECT 1", "tokens-ctx", true},
 	{"parser-pool-distinct", "", "parser-pool-distinct", true},
 	{"depth-150", "SELECT " + strings.Repeat("(", 150) + "1" + strings.Repeat(")", 150), "parse", false},
 	{"depth-190-fn", "SELECT " + strings.Repeat("f(", 190) + "1" + strings.Repeat(")", 190), "parse", false},
